@@ -15,6 +15,8 @@ use vcore::vsched::{self, body, fail, Cfg, Scenario, Verdict};
 static META: Metadata<'static> = Metadata::new("t", Level::INFO, None);
 const T: u64 = 1000; // idle timeout in clock ticks (ns)
 /// the idle timeout the direct part runs with (T by default; parts with a zero and a one-tick timeout set it)
+/// prometheus part variant: the builder's idle_timeout option is given twice, the second time with None (withdrawn)
+static WITHDRAWN: std::sync::atomic::AtomicBool = std::sync::atomic::AtomicBool::new(false);
 static TICKS: std::sync::atomic::AtomicU64 = std::sync::atomic::AtomicU64::new(T);
 
 #[derive(Clone, Copy, Debug, PartialEq, Eq, PartialOrd, Ord, Hash)]
@@ -300,7 +302,14 @@ fn prom(ctx: &Ctx, res: &mut PartResult, depth: usize, mask_i: usize, global_lab
     let replay_seq: Option<Vec<usize>> = ctx.replay.as_ref().and_then(|r| r["seq"].as_array().map(|a| a.iter().map(|x| x.as_u64().unwrap() as usize).collect()));
     let mut run_seq = |seq: &[usize]| -> Option<usize> {
         let (clock, mock) = Clock::mock();
-        let mut b = PrometheusBuilder::new().idle_timeout(mask, Some(Duration::from_nanos(T)));
+        let withdrawn = WITHDRAWN.load(std::sync::atomic::Ordering::Relaxed);
+        let mut b = if withdrawn {
+            // a timeout for everything first, then the option again with None: no timeout is set
+            PrometheusBuilder::new().idle_timeout(MetricKindMask::ALL, Some(Duration::from_nanos(T))).idle_timeout(mask, None)
+        } else {
+            // (the same option given twice with a timeout: the later call counts)
+            PrometheusBuilder::new().idle_timeout(MetricKindMask::NONE, Some(Duration::from_nanos(T * 7))).idle_timeout(mask, Some(Duration::from_nanos(T)))
+        };
         if global_label {
             // the aggregated distributions are keyed by the merged label set: expiry has to find them under it too
             b = b.add_global_label("service", "demo");
@@ -343,7 +352,7 @@ fn prom(ctx: &Ctx, res: &mut PartResult, depth: usize, mask_i: usize, global_lab
                     let text = h.render();
                     let mut want: BTreeMap<&str, u64> = BTreeMap::new();
                     for mi in 0..3 {
-                        let covered = mask.matches(mk(kinds[mi]));
+                        let covered = !withdrawn && mask.matches(mk(kinds[mi]));
                         if observe_model(&mut ms[mi], now, covered) == Some(true) {
                             want.insert(names[mi], ms[mi].updates_since_registration);
                         }
@@ -508,6 +517,7 @@ fn parts(ctx: &Ctx) -> Vec<PartSpec> {
         let d = if ctx.quick() { 5 } else { 6 };
         v.push(PartSpec::new(&format!("direct-d{}-mask{}-timeout-{}-ticks", d, mi, ticks), json!({"depth": d, "mask": mi, "timeout": true, "ticks": ticks})).budget(if ctx.quick() { 150.0 } else { 2400.0 }));
     }
+    v.push(PartSpec::new("prometheus-mask3-timeout-withdrawn", json!({"prom": true, "mask": 3, "withdrawn": true, "depth": if ctx.quick() { 5 } else { 7 }})).budget(if ctx.quick() { 150.0 } else { 2400.0 }));
     v.push(PartSpec::new("prometheus-mask3-global-label", json!({"prom": true, "mask": 3, "global": true, "depth": if ctx.quick() { 5 } else { 7 }})).budget(if ctx.quick() { 150.0 } else { 2400.0 }));
     for (ki, kn) in ["counter", "gauge", "histogram"].iter().enumerate() {
         let pb = if ctx.quick() { 2 } else { 4 };
@@ -524,6 +534,7 @@ fn run(ctx: &Ctx, spec: &PartSpec) -> PartResult {
         let kind = [K::C, K::G, K::H][spec.arg["kind"].as_u64().unwrap_or(0) as usize];
         e1_update_vs_observe(ctx, &mut res, pb as usize, kind);
     } else if spec.arg["prom"].as_bool() == Some(true) {
+        WITHDRAWN.store(spec.arg["withdrawn"].as_bool().unwrap_or(false), std::sync::atomic::Ordering::Relaxed);
         prom(ctx, &mut res, depth, mask, spec.arg["global"].as_bool().unwrap_or(false));
     } else {
         TICKS.store(spec.arg["ticks"].as_u64().unwrap_or(T), std::sync::atomic::Ordering::Relaxed);
@@ -536,7 +547,7 @@ fn main() {
     driver::main(CheckDef {
         prop: "C12",
         level: "model_checking",
-        rule: "direct: every sequence of the stated depth over 13 operations (update of 4 metrics incl. the same key under three kinds and a gauge update leaving the value unchanged; clock advance by 1, T-1, T, T+1 ticks; observe one metric; observe all) on the real Recency + Registry<Key, GenerationalAtomicStorage> under quanta's mock clock, for masks {NONE, COUNTER, GAUGE|HISTOGRAM, ALL} with the timeout and ALL without, plus timeouts of zero and one tick; via Prometheus: every sequence over {inc, set, record, advance 1/T/T+1, render} through verif_build_with_clock and the strict parser; reference per (kind,key): (generation, time of the last observation that saw a change); E1: every SC interleaving (pb-bounded) of one update (counter increment / gauge increment / histogram record through the exporter's generational handles) with an observation (clock advance + render) between two sequential observations: the racing update is reported before the metric can be dropped as idle; distinct = distinct reference states; a registration that writes nothing (get-or-create with an empty operation) for a counter and a histogram is part of the alphabet",
+        rule: "direct: every sequence of the stated depth over 13 operations (update of 4 metrics incl. the same key under three kinds and a gauge update leaving the value unchanged; clock advance by 1, T-1, T, T+1 ticks; observe one metric; observe all) on the real Recency + Registry<Key, GenerationalAtomicStorage> under quanta's mock clock, for masks {NONE, COUNTER, GAUGE|HISTOGRAM, ALL} with the timeout and ALL without, plus timeouts of zero and one tick; via Prometheus: every sequence over {inc, set, record, advance 1/T/T+1, render} through verif_build_with_clock and the strict parser (the builder's idle_timeout option given twice: the later call counts, and a later None withdraws the timeout); reference per (kind,key): (generation, time of the last observation that saw a change); E1: every SC interleaving (pb-bounded) of one update (counter increment / gauge increment / histogram record through the exporter's generational handles) with an observation (clock advance + render) between two sequential observations: the racing update is reported before the metric can be dropped as idle; distinct = distinct reference states; a registration that writes nothing (get-or-create with an empty operation) for a counter and a histogram is part of the alphabet",
         assumptions: &["time only advances through the mock clock", "the direct part observes a metric the way the exporters do: look the handle up, read its generation, ask should_store_*"],
         parts,
         run,
